@@ -57,6 +57,9 @@ static std::string jdstrips(const double *p, int n, int d){
     return s + "]";
 }
 static std::string jdvec(std::vector<double> const &v){ std::string s = "["; for(size_t i=0; i<v.size(); i++){ if (i) s += ","; s += jnum(v[i]); } return s + "]"; }
+// transform vectors as strings: the specification only compares them for equality, and a list that mixes integers and reals
+// would be an ill-typed comparison in TLC
+static std::string jsvec(std::vector<double> const &v){ std::string s = "["; for(size_t i=0; i<v.size(); i++){ char b[64]; snprintf(b, 64, "\"%.17g\"", v[i]); if (i) s += ","; s += b; } return s + "]"; }
 static std::string jbool(bool b){ return b ? "true" : "false"; }
 static std::string jstr(std::string const &s){ std::string r = "\""; for(char c : s){ if (c == '"' || c == '\\') r += '\\'; if (c == '\n') r += ' '; else r += c; } return r + "\""; }
 
@@ -188,7 +191,7 @@ static std::string project(TasmanianSparseGrid const &g){
     s += ",\"con\":" + jbool(g.isUsingConstruction());
     if (g.isSetDomainTransfrom()){
         std::vector<double> a, b; g.getDomainTransform(a, b);
-        s += ",\"ta\":" + jdvec(a) + ",\"tb\":" + jdvec(b);
+        s += ",\"ta\":" + jsvec(a) + ",\"tb\":" + jsvec(b);
     }else s += ",\"ta\":[],\"tb\":[]";
     s += ",\"conf\":" + (g.isSetConformalTransformASIN() ? jivec(g.getConformalTransformASIN()) : std::string("[]"));
     s += ",\"alpha\":" + jnum(g.getAlpha()) + ",\"beta\":" + jnum(g.getBeta());
@@ -1133,7 +1136,7 @@ int main(int argc, char **argv){
                     else g.makeWaveletGrid(d, outs, depth, order, ll);
                 }
             }else if (cmd == "transform"){
-                auto a = rddvec(ls), b = rddvec(ls); A("a", jdvec(a)); A("b", jdvec(b));
+                auto a = rddvec(ls), b = rddvec(ls); A("a", jsvec(a)); A("b", jsvec(b));
                 g.setDomainTransform(a, b);
             }else if (cmd == "cleartransform"){ g.clearDomainTransform();
             }else if (cmd == "conformal"){ auto t = rdivec(ls); A("t", jivec(t)); g.setConformalTransformASIN(t);
